@@ -288,7 +288,9 @@ inline void runC05(Ctx &c)
             if (!c.mine(idx))
                 continue;
             Rng r = c.beginCase(cl.name, idx);
-            Problem p = genProblem(r, cl.order, cl.dim, cl.N);
+            GenOpts gopt;
+            gopt.huge_t0_prob = 0.12;
+            Problem p = genProblem(r, cl.order, cl.dim, cl.N, gopt);
             Upstream u = genUpstream(r, p, (int)(idx % 6));
             c.dump = [&]() { return JObj().str("upstream", u.kind).raw("gC", jmat(u.gC, true)).raw("gT", jvec(u.gT, true)).raw("problem", dumpProblem(p)).done(); };
             if (problemNontrivial(p))
@@ -384,7 +386,9 @@ inline void runC06(Ctx &c)
             if (!c.mine(idx))
                 continue;
             Rng r = c.beginCase(cl.name, idx);
-            Problem p = genProblem(r, cl.order, cl.dim, cl.N);
+            GenOpts gopt;
+            gopt.huge_t0_prob = 0.12;
+            Problem p = genProblem(r, cl.order, cl.dim, cl.N, gopt);
             c.dump = [&]() { return dumpProblem(p); };
             if (problemNontrivial(p))
                 c.nontrivial(hashProblem(p));
